@@ -137,7 +137,13 @@ def _post_ace(self, args, kwargs, result, exc, token):
         if snap[key] and snap[key][0] in ("eq", "neq"):
             want_n *= len(snap[key][1])
     problems = []
-    if len(result) != want_n:
+    low_n = 1  # with repeated operands ('eq 80 80 443') one piece per operand or one per distinct port are both fine
+    for key in ("sport", "dport"):
+        if snap[key] and snap[key][0] in ("eq", "neq"):
+            low_n *= len(set(snap[key][1]))
+    if low_n != want_n:
+        _bump("splits_of_repeated_operands_judged")
+    if not low_n <= len(result) <= want_n:
         problems.append(f"{len(result)} pieces, expected {want_n}")
     problems += _judge_split(snap, result, "Ace.ungroup_ports")
     _report(snap, problems)
@@ -258,7 +264,7 @@ def execute(ctx, case: dict) -> None:
     _drain(case, ctx)
 
 
-def _multi_ace(rng, allow_neq=True) -> tuple:
+def _multi_ace(rng, allow_neq=True, dups=False) -> tuple:
     proto = rng.choice(["tcp", "udp"])
 
     def side():
@@ -275,6 +281,8 @@ def _multi_ace(rng, allow_neq=True) -> tuple:
             v = grammar.rand_port(rng, grammar.port_vocab(proto, "ios", ""))
             if v not in vals:
                 vals.append(v)
+        if dups and op == "eq" and rng.random() < 0.5:  # the same port named twice (number/number or name/number)
+            vals.insert(rng.randint(0, len(vals)), rng.choice(vals))
         return f" {op} " + " ".join(str(v) for v in vals), (op, cnt)
 
     s_txt, s_sig = side()
@@ -291,7 +299,7 @@ def gen_cases(ctx):
     while True:
         roll = rng.random()
         if roll < 0.35:
-            text, sig = _multi_ace(rng)
+            text, sig = _multi_ace(rng, dups=rng.random() < 0.12)
             case = {"level": "ace", "text": text, "sig": sig,
                     "group_members": [["10.1.0.0 0.0.0.255", "host 10.1.1.1"], ["10.2.0.0 0.0.255.255", "host 10.2.2.2", "host 10.2.2.3"]]}
             if rng.random() < 0.5:
